@@ -396,6 +396,11 @@ func runC06(c *core.Ctx) {
 	runR64(c, rd)
 
 	// ---- R6.5
+	c.Rule("R6.6", "a caller that retries submits a reply channel created for that attempt (shared with C13): on a reused, closed channel the retry is answered with a zero response, i.e. success, before the backend saw the request", 3)
+	checkReplyChannelPerAttempt(c, "R6.6")
+	c.Rule("R6.7", "the request rebuilt for a retry asks for every key still owed (shared with C13): one reply per requested key", 1)
+	checkRebuildKeepsEveryEntry(c, "R6.7")
+	c.Share(map[string]string{"R14.3": "R6.8"}, runC14) // a batch buffer used after it went back to the pool is overwritten by another connection's batch: callers' commands reach the backend as someone else's
 	c.Rule("R6.5", "state that suppresses hand-back in the retrying multi-key functions (the 'this attempt failed' flag) is reset for every attempt: it is never carried from one retry into the next", 2)
 	for _, fn := range submitters(c) {
 		if fn.Signature.Results().Len() > 0 {
